@@ -9,6 +9,7 @@ import PandoraModel.Generated.Kernels
 import PandoraModel.Generated.KernelsSelfTest  -- the translator's own test functions, checked by evaluation
 import PandoraModel.Properties.C06
 import Mathlib.Tactic.Linarith
+import Mathlib.Tactic.Tauto
 import Mathlib.Tactic.Ring
 import Mathlib.Tactic.FieldSimp
 import Mathlib.Algebra.Order.Field.Basic
@@ -212,7 +213,9 @@ theorem kernelMethod_total (hflat : sourceVariant.fixFlat = true) (m : Method) (
 theorem refineGuard_eq (P : Params) (hP : P.variant.fixEnds = sourceVariant.fixEnds) (n : Nat) (dv : ℚ) (dsp : Int) :
     refineGuard dsp (n : Int) dv P.dmin P.dmax = notAtEnd P n dv dsp := by
   simp only [refineGuard, notAtEnd, hP, sourceVariant, Generated.RefineCC.endTestOnIndex]
+  rw [Bool.eq_iff_iff]
   simp [bne, beq_eq_decide]
+  try tauto
 
 /-! ## Pixel and map level: the loop body with the generated kernels in place of the hand-written methods -/
 
